@@ -7,7 +7,7 @@
 (*  - blocks of the copied partition are disjoint, so the inner `for P` order  *)
 (*    cannot influence the outcome of one iteration (one action per pop);      *)
 (*  - unreachable states are not removed.                                      *)
-EXTENDS DfaUniverse
+EXTENDS DfaUniverse, Steps
 VARIABLES D, P, W, stage
 vars == <<D, P, W, stage>>
 
@@ -19,18 +19,15 @@ PickF == /\ stage = 0 /\ stage' = 1
          /\ UNCHANGED <<P, W>>
 PickD == /\ stage = 1 /\ stage' = 2
          /\ D' \in DfasWithF(D.F)
-         /\ P' = {D.F, Q \ D.F} \ {{}}
-         /\ W' = {<<MinOf(D.F, Q \ D.F), a>> : a \in S}
+         /\ P' = HopInitP(D')
+         /\ W' = HopInitW(D')
 
 SplitIn(Wb, a, B) == {p \in B : Delta(D, p, a) \in Wb}
 
 StepHop(wa) ==
-  LET Wb == wa[1]
-      a == wa[2]
-      splits == {B \in P : Cardinality(B) > 1 /\ SplitIn(Wb, a, B) # {} /\ SplitIn(Wb, a, B) # B}
-  IN /\ P' = (P \ splits) \cup UNION {{SplitIn(Wb, a, B), B \ SplitIn(Wb, a, B)} : B \in splits}
-     /\ W' = (W \ {wa}) \cup {<<MinOf(SplitIn(Wb, a, B), B \ SplitIn(Wb, a, B)), b>> : B \in splits, b \in S}
-     /\ UNCHANGED <<D, stage>>
+  /\ P' = HopP(D, P, wa)
+  /\ W' = HopW(D, P, W, wa)
+  /\ UNCHANGED <<D, stage>>
 
 Pop == stage = 2 /\ \E wa \in W : StepHop(wa)
 Next == PickF \/ PickD \/ Pop
